@@ -15,6 +15,7 @@ The helpers (TLA+ value parser, case generation, comparison) are shared with C17
 import json
 import os
 import re
+import time
 
 from vlib import core
 
@@ -162,6 +163,7 @@ def run_model(ctx, module, cfg, simulate=None, timeout=900, workers=None):
     if r.violated:
         ctx.extra.setdefault("model_only_counterexamples", []).append(
             {"cfg": cfg, "violated": r.violated, "tail": core._tlc_tail(r.out)[-1500:]})
+    ctx.extra.setdefault("tlc_s", {})[cfg] = round(r.wall, 1)
     worlds = printed(r.out, "WORLD")
     cases = printed(r.out, "CASE")
     if not worlds:
@@ -250,6 +252,10 @@ def judge_case(ctx, world, cat, g, out, determinism=True, binding=True, label=""
         raise core.MachineryError("harness could not run case %s: %s" % (ids, out["err"][:600]))
     runs = list(out.get("runs") or []) + [out["saved"]]
     stats["runs"] = len(runs)
+    spec_expels = [i for i in ids if cat[i]["k"] == "expel"]
+    if (out.get("expels") or []) != spec_expels:
+        raise core.MachineryError("the voteproof orders the expels %s, the specification's ExpelOrder gives %s: "
+                                  "update ExpelOrder in the spec" % (out.get("expels"), spec_expels))
     sample = {"world": world["world"], "ops": ids, "scheds": g["scheds"],
               "spec": g["wants"][0], "manifest": out["saved"].get("hash"), "runs": len(runs)}
 
@@ -333,7 +339,9 @@ def replay(ctx, pid, tag, world, groups, free, reps, par=None, timeout=2400):
     args = [pid, "replay", "--in", inp, "--out", res, "--work", os.path.join(ctx.work, "go-" + tag)]
     if par:
         args += ["--par", par]
+    t = time.time()
     ctx.vh(args, timeout=timeout)
+    ctx.extra.setdefault("replay_s", {})[tag] = round(time.time() - t, 1)
     outs = core.read_ndjson(res)
     if len(outs) != len(cases):
         raise core.MachineryError("harness answered %d of %d cases" % (len(outs), len(cases)))
